@@ -15,7 +15,8 @@ Request:  `run <fixed:0|1> <clock> <cands> <init> <progs> <sched>`
          `u/<id|g>/<V|C>/<expectAbsent>/<createIfAbsent>/<expect>/<check>/<f>/<mask>/<writeTime>` or
          `d/<id>/<allowMissing>/<expect>/<check>`
          id `g` = empty id + WithGenIDIfAbsent; expect `-` or `a.b`; check `n` | `eq<k>` | `ne<k>` on field a
-         (fails with OutOfRange); f `s<a>.<b>` (write a.b) | `a<k>` | `b<k>` (interceptor: field += k) |
+         (fails with OutOfRange) | `ve<k>` (a = k, or FailedPrecondition) | `ak<k>` (a = k, or VersionMismatch;
+         then b ∉ {2, 3}, or FailedPrecondition: the check of AcknowledgePublication); f `s<a>.<b>` (write a.b) | `a<k>` | `b<k>` (interceptor: field += k) |
          `x<k>` (the interceptor of `vendingpb.Model.DispenseInstantly`: a += k, b := max 0 (b - k));
          mask `-` (none) | `a` | `b` | `ab`, followed by `+` when an InterceptAfter sets field b of the result
          to the old b + 1; writeTime `-` or a number
@@ -64,6 +65,7 @@ def showErr : Err → String
   | .notFound => "NotFound"
   | .unavailable => "Unavailable"
   | .other 11 => "OutOfRange"
+  | .other 10 => "VersionMismatch"
   | .other 2 => "Unknown"
   | .other n => s!"Other{n}"
 
@@ -85,6 +87,17 @@ def parseCheck? (s : String) : Option (Option P → Option Err) :=
     (parseInt? (s.drop 2).toString).map (fun k => fun old => if old.map (·.a) = some k then none else some (.other 11))
   else if s.startsWith "ne" then
     (parseInt? (s.drop 2).toString).map (fun k => fun old => if old.map (·.a) = some k then some (.other 11) else none)
+  -- the version checks of `publicationpb.ModelServer` (the version is a function of field a, the body):
+  -- UpdatePublication / DeletePublication refuse another version with FailedPrecondition …
+  else if s.startsWith "ve" then
+    (parseInt? (s.drop 2).toString).map (fun k => fun old =>
+      if old.map (·.a) = some k then none else some .failedPrecondition)
+  -- … AcknowledgePublication refuses another version (its own code for that, printed `VersionMismatch`) and a
+  -- version whose receipt (field b) is already ACCEPTED (2) or REJECTED (3)
+  else if s.startsWith "ak" then
+    (parseInt? (s.drop 2).toString).map (fun k => fun old =>
+      if old.map (·.a) ≠ some k then some (.other 10)
+      else if old.map (·.b) = some 2 ∨ old.map (·.b) = some 3 then some .failedPrecondition else none)
   else none
 
 /-- the message handed to `Set`/`Update` after `interceptBefore` ran, as a function of the old value -/
